@@ -1948,7 +1948,7 @@ def check_linearisation(ck, facts):
                         if quo[qd][0] != rem[rdv][0]:
                             continue
                         slow, fast = norm_dim(c["pn"][qi - off]), norm_dim(c["pn"][ri - off])
-                        Eq, Er = quo[qd][1], rem[rdv][1]
+                        Eq, Er = through_consts(fr, quo[qd][1]), through_consts(fr, rem[rdv][1])
                         rq = var_role.get(Eq.get("d"))
                         rr = var_role.get(Er.get("d"))
                         key = "%s/%s/counter-split" % (sc, mode)
@@ -2332,6 +2332,17 @@ class StreamFn(LayoutFn):
             if nm == "set_checkpoint_data" and s.get("a") and self.root_name(s["a"][0]) == "ROOT":
                 self.opaque(s)
                 return
+            if nm in ("emplace", "insert_or_assign", "try_emplace") and "std::map" in (s.get("ccls") or s.get("callee") or "") and len(s.get("a", [])) == 2:
+                key = strip_cast(s["a"][0])
+                while key.get("k") in ("Construct", "TempObj") and len(key.get("a", [])) == 1:
+                    key = strip_cast(key["a"][0])
+                if key.get("k") in ("Construct", "TempObj") and len(key.get("a", [])) >= 2:
+                    p_ = self.ptr(key["a"][0])
+                    if p_ is not None and p_[0] == "ROOT":
+                        cnt = self.ival(key["a"][1])
+                        self.events.append({"kind": "slice", "base": p_[0], "from": p_[1], "to": p_[1] + cnt, "consumer": "key", "line": s.get("l")})
+                        self.events.append({"kind": "offset", "value": self.ival(s["a"][1]), "line": s.get("l"), "how": nm})
+                return
             if nm == "write" and len(s.get("a", [])) == 2:
                 self.events.append({"kind": "write", "src": self.describe_src(s["a"][0]), "n": self.ival(s["a"][1]), "line": s.get("l")})
                 return
@@ -2634,6 +2645,89 @@ def check_checkpoint_control(ck, facts):
         ck.ob(R, "CheckpointControl/load(BinaryStream)", ok, detail, lod[0].file, (cp[0]["line"] if cp else lod[0].line))
     except Unknown as e:
         ck.incomplete(R, "CheckpointControl::save/load(BinaryStream&): %s" % e)
+
+
+def check_checkpoint_state(ck, facts):
+    """typestate of the reader side of CheckpointControl: whatever a load leaves behind for restore_object must not survive into the next load"""
+    R = "E7.load-state-reset"
+    fns = {}
+    for f in facts.functions:
+        if f.cls == "FEAT::Control::CheckpointControl" and f.tk != "pattern":
+            fns.setdefault(f.name, []).append(f)
+    fill = [f for nm in ("load", "_load", "_restore_checkpoint_data") for f in fns.get(nm, [])]
+    readers = fns.get("restore_object", [])[:1]
+    clear = fns.get("clear_input", [])[:1]
+    if not fill or not readers or not clear:
+        ck.incomplete(R, "CheckpointControl::load/_restore_checkpoint_data/restore_object/clear_input not all found in the driver TU")
+        return
+
+    def fields(f):
+        out = {}
+        for n in f.nodes():
+            if n.get("k") == "Member" and n.get("field") and (n.get("b") is None or strip_cast(n["b"]).get("k") == "This"):
+                out.setdefault(n["n"], f.type(n.get("t")))
+        return out
+    rd = fields(readers[0])
+    fl = {}
+    for f in fill:
+        fl.update(fields(f))
+    members = sorted(m for m in rd if m in fl and ("std::map" in (rd[m] or "") or "std::vector" in (rd[m] or "")))
+    if not members:
+        ck.incomplete(R, "no data member is both filled by load and read by restore_object")
+        return
+    for m in members:
+        typ = rd[m] or ""
+        is_map = "std::map" in typ
+        # --- reset in clear_input
+        resets = []
+        for n in clear[0].nodes():
+            if n.get("k") == "MCall":
+                o = n.get("obj")
+                if this_member(o, (m,)):
+                    if n.get("n") == "clear" or (n.get("n") == "resize" and n.get("a") and is_zero(n["a"][0])):
+                        resets.append(render(n))
+                    if n.get("n") == "swap" and n.get("a") and strip_cast(n["a"][0]).get("k") in ("Construct", "TempObj") and not strip_cast(n["a"][0]).get("a"):
+                        resets.append(render(n))
+                elif n.get("n") == "swap" and n.get("a") and this_member(n["a"][0], (m,)) and o is not None and strip_cast(o).get("k") in ("Construct", "TempObj") and not strip_cast(o).get("a"):
+                    resets.append("%s().swap(%s)" % (strip_cast(o).get("ccls") or "T", m))
+            if n.get("k") in ("Assign", "OpCall") and n.get("op") == "=":
+                l, r_ = (n["lhs"], n["rhs"]) if n.get("k") == "Assign" else n["a"]
+                if this_member(l, (m,)) and strip_cast(r_).get("k") in ("Construct", "TempObj") and not [a for a in strip_cast(r_).get("a", []) if not is_zero(a)]:
+                    resets.append(render(n))
+        # --- writes by the load path
+        writes = []
+        for f in fill:
+            for n in f.nodes():
+                if is_map:
+                    if n.get("k") == "Assign" or (n.get("k") == "OpCall" and n.get("op") == "="):
+                        l = strip_cast(n["lhs"] if n.get("k") == "Assign" else n["a"][0])
+                        if l.get("k") == "OpCall" and l.get("op") == "[]" and this_member(l["a"][0], (m,)):
+                            writes.append(("assign", "operator[] =", n.get("l"), f))
+                    if n.get("k") == "MCall" and this_member(n.get("obj"), (m,)):
+                        if n.get("n") == "insert_or_assign":
+                            writes.append(("assign", "insert_or_assign", n.get("l"), f))
+                        elif n.get("n") in ("emplace", "insert", "try_emplace", "emplace_hint"):
+                            writes.append(("keep", n["n"], n.get("l"), f))
+                else:
+                    if n.get("k") == "MCall" and this_member(n.get("obj"), (m,)) and n.get("n") in ("resize", "assign"):
+                        writes.append(("assign", n["n"], n.get("l"), f))
+                    if (n.get("k") == "Assign" or (n.get("k") == "OpCall" and n.get("op") == "=")) and this_member(n["lhs"] if n.get("k") == "Assign" else n["a"][0], (m,)):
+                        writes.append(("assign", "operator=", n.get("l"), f))
+                    if n.get("k") == "Call":
+                        for i, a in enumerate(n.get("a", [])):
+                            if this_member(a, (m,)) and i < len(n.get("pt", [])) and (facts.types[n["pt"][i]] if isinstance(n["pt"][i], int) else "").endswith("&") and "const" not in (facts.types[n["pt"][i]] if isinstance(n["pt"][i], int) else "const"):
+                                writes.append(("assign", "output argument of %s" % n.get("callee"), n.get("l"), f))
+        keep = [w for w in writes if w[0] == "keep"]
+        overwritten = bool(writes) and not keep
+        ok = bool(resets) or overwritten
+        loc = keep[0] if keep else (writes[0] if writes else None)
+        ck.ob(R, "CheckpointControl/%s" % m, ok,
+              ("clear_input() resets it (%s)" % resets[0]) + ("; every load overwrites it (%s)" % ", ".join(sorted(set(w[1] for w in writes))) if overwritten else "") if resets else
+              ("every load overwrites it unconditionally (%s)" % ", ".join(sorted(set(w[1] for w in writes)))) if overwritten else
+              "%s is filled by the load path with %s, which keeps an existing entry, and clear_input() does not reset it: after load(A), clear_input(), load(B) an identifier "
+              "present in both checkpoints keeps the offset it had in A, and restore_object() hands another object's bytes to it" % (m, ", ".join(sorted(set(w[1] for w in keep))) or "no overwriting store"),
+              (loc[3].file if loc else clear[0].file), (loc[2] if loc else clear[0].line),
+              sample={"member": m, "resets": resets, "writes": [w[:2] for w in writes]})
 
 
 def check_meta_checkpoints(ck, facts):
@@ -3574,6 +3668,9 @@ def declare_rules(ck, thorough):
     ck.rule("E12.checkpoint-layout", "CheckpointControl: the record [u64 id length][id][u64 data length][data] appended per object is the one _restore_checkpoint_data walks "
             "(offsets, widths, stride) and restore_object slices; the collected length equals the bytes appended; save/load(BinaryStream) frame the same number of bytes; "
             "breaks for: two or more objects in one checkpoint, or an object whose last byte is significant", 10)
+    ck.rule("E7.load-state-reset", "every data member of CheckpointControl that the load path fills and restore_object reads is reset by clear_input() or overwritten "
+            "unconditionally on every load (operator[]= / insert_or_assign / resize, not emplace / insert), so that no state of an earlier load survives; breaks for: one "
+            "CheckpointControl reading two checkpoints in a row (load(A), clear_input(), load(B)) with an identifier at different offsets", 2)
     ck.rule("E12.meta-checkpoint", "meta containers: set_checkpoint_data appends [u64 length of first][first][rest] and returns the bytes appended; restore_from_checkpoint_data reads "
             "that word, hands exactly [8, 8+length) to the same sub-object and the remainder to the rest; get_checkpoint_size covers it", 60)
     ck.rule("E12.length-width", "a length word read from a checkpoint stream is used in offset arithmetic at its full width (no narrowing to a 32-bit signed type); "
@@ -3620,6 +3717,7 @@ def run_on(ck, facts, primary):
         check_linearisation(ck, facts)
         check_rowptr_builders(ck, facts)
         check_checkpoint_control(ck, facts)
+        check_checkpoint_state(ck, facts)
         check_meta_checkpoints(ck, facts)
         check_meta_stream_recursion(ck, facts)
         check_meta_file_recursion(ck, facts)
